@@ -229,7 +229,7 @@ def _table_shrink(toks):
 _C01_RULE = ("one request in 500 (thorough: 300) is `longpath K seed len stranded entry`: a repeat-free random read of 131 200-150 000 bases (K in "
              "{24,31,48}; the harness checks that all canonical k-mers are distinct and none is its own reverse complement) through the real filter "
              "and the entry point - too large for the line protocol and the executable model, so the answer is judged against the property "
-             "directly: one unbranched path = one node holding every k-mer (implementation against the statement, not against the model). The others: "
+             "directly: one unbranched path = one node holding every k-mer (implementation against the statement, not against the model); the corpus holds one such path of 2 100 100 bases on two-word k-mers for every run. The others: "
              "requests `compress <entry> K stranded join reduce <table>`: k-mer tables produced by the real filter_kmers from the structured "
              "read-set generator (alphabet 1-4, chunk reuse, s++rc(s), hairpins, tandem repeats, homopolymers, tight cycles, rc/duplicate/SNP/tip "
              "copies) with thresholds 1-3, pruned with remove_censored_exts when the threshold rejects k-mers (otherwise half of the time); 5% with "
@@ -361,7 +361,7 @@ PROPS = {
         "nontrivial": _c08_nontrivial, "tags": _c08_tags, "shrink": _c08_shrink,
         "rule": "requests `msp k p rc perm container reads`: 1-5 reads per set (random, tandem, homopolymer, palindromic, chunk-pasted; a third "
                 "of the later reads are reverse complements / shifted windows / copies of earlier ones so that the same k-mer occurs in several "
-                "reads, positions and strands), p in {2,3,4} (thorough: ..6) and, one request in 15, p = 8 or 10 (thorough also 12) with the default permutation (its 4^p-entry identity table), k = p+1..p+12 and, one request in 20, k - p in {61..66, 71} on growable containers with reads of k + 80..300 bases, default and random permutations, rc on/off, "
+                "reads, positions and strands), p in {2,3,4} (thorough: ..6) and, one request in 15, p = 8, 10 or 12 with the default permutation (its 4^p-entry identity table), k = p+1..p+12 and, one request in 20, k - p in {61..66, 71} on growable containers with reads of k + 80..300 bases, default and random permutations, rc on/off, "
                 "containers DnaBytes, DnaString, Lmer1/2/3 (k capped so that 2k-p fits, with a 1/30 stream violating the capacity "
                 "assertion). Non-trivial = at least two reads and some read split into >= 2 pieces.",
         "trusted_base": ["modelled, not verified: Vmer::from_slice / get of each container reproduce the bases written (that is C13/C14/C17)"],
@@ -409,7 +409,7 @@ PROPS = {
         "n_quick": 8000, "n_thorough": 600000,
         "nontrivial": lambda toks, impl: impl != "panic" and (toks[1] == "pset" or toks[2].count(";") >= 2), "tags": _c14_tags,
         "rule": "requests `hist <ops> <other>`: 1-25 operations from push, extend (lengths aimed at len%32 in {0,1,31}), push_bytes, set_mut, "
-                "clear, blank, from_bytes, from_acgt_bytes, from_dna_string (10% non-ACGT characters); after every operation the raw "
+                "clear, blank, from_bytes, from_acgt_bytes, from_dna_string (10% non-ACGT characters, a quarter of them beyond ASCII: request bytes are code points 0..255, so such a character is two bytes of UTF-8); after every operation the raw "
                 "storage blocks and length are observed (serde), at the end all renderings, reverse, rc, and ==/hash/cmp against the "
                 "from_bytes route to the same bases and against `other` (random, a proper prefix, an extension by A's or random bases, "
                 "same-length for ndiffs); the iterator is observed through its adaptors on a fresh iterator, after n/3 steps (`count`, `last`) and after exhaustion (`next`, `last`, `count`, `nth(0)`, `skip(n).last()`, `skip(n+1).next()` find nothing); one history in 25 starts from a string of 255..4100 bases (both sides of 256, 1024, 2048); `pset <seqs>`: PackedDnaStringSet add/get. Non-trivial = at least 3 operations.",
@@ -434,7 +434,7 @@ PROPS = {
                 "(slice(a,b), prefix, suffix, rc in any interleaving; 1/60 intervals out of range), then all renderers incl. Debug, to_owned "
                 "(raw storage), == against an owned copy, get_kmer of one of 8 k-mer types; `ham <s1> <s2> a1 r1 a2 r2 n`: hamming_dist of two "
                 "views of length n (0..200, block boundaries, 1023-2100; thorough 5000) at arbitrary offsets, either reverse-complemented, "
-                "with 0-4 differences planted at positions 0, 31, 32, 1023, 1024, n/2, n-1; one pair in five is dense instead: 2048..4100 bases with every base of a long stretch shifted by a constant (or a sequence against a homopolymer). Non-trivial = ham, or nesting depth >= 2.",
+                "with 0-4 differences planted at positions 0, 31, 32, 1023, 1024, n/2, n-1; one pair in six is two views of one and the same string object (the same window in both orientations, or two windows); one pair in five is dense instead: 2048..4100 bases with every base of a long stretch shifted by a constant (or a sequence against a homopolymer). Non-trivial = ham, or nesting depth >= 2.",
         "trusted_base": [],
         "assumptions": ["interval arguments inside the view (outside: the crate asserts; compared as panic)"],
     },
@@ -494,8 +494,8 @@ PROPS = {
         "nontrivial": lambda toks, impl: impl not in ("panic", "unavailable"), "tags": _c16_tags,
         "rule": "requests: `acgt auto|scalar <bytes>` (lengths 0..130 incl. 0,1,31..33,63..65,95..97,128,130; 60% ACGTacgt, 40% arbitrary bytes "
                 "0..255; valid 32-byte blocks with 0-2 lanes perturbed to arbitrary values plus a tail), `kernel convert|pack <32 bytes>` "
-                "(raw AVX2 kernels through the hook wrappers, arbitrary bytes incl. >= 4 for pack), `str` (`acgt` and `str` answers carry `to_string()` as well, expected: the upper-cased input; one length in 40 is 255..2049), `only` (ASCII text with 40% "
-                "arbitrary ASCII; half of the `only` texts are built from runs of valid bases with lengths around and on multiples of 32, one to three other characters between them), `hashn <b1> <b2> <name>` (two byte strings under one read name: non-ACGT positions shared between the "
+                "(raw AVX2 kernels through the hook wrappers, arbitrary bytes incl. >= 4 for pack), `str` (text as code points 0..255, half of the time with characters beyond ASCII; `acgt` and `str` answers carry `to_string()` as well, expected: the upper-cased input; one length in 40 is 255..2049), `only` (ASCII text with 40% "
+                "arbitrary ASCII; half of the `only` texts are built from runs of valid bases with lengths around and on multiples of 32, one to three other characters between them), `hashn <b1> <b2> <name>` (two byte strings under one read name, a third of them with a gap of 30..100 non-ACGT bytes: non-ACGT positions shared between the "
                 "two must receive the same base). Forced-scalar path through the verif_hooks switch. Non-trivial = an answer was produced.",
         "trusted_base": ["x86 semantics of the eleven AVX2 intrinsics as transcribed in Model/Avx2.lean (validated against the hardware by the "
                          "kernel requests on arbitrary bytes)", "DefaultHasher is an arbitrary deterministic function (parameter of the model)"],
@@ -594,7 +594,7 @@ PROPS = {
         "nontrivial": lambda toks, impl: impl != "panic" and (toks[1] != "export" or toks[4].count(",") >= 1), "tags": _c20_tags,
         "shrink": _c20_shrink,
         "rule": "requests `export K stranded nodes rest`: GFA and JSON text of graphs from the pipeline (60%), hand-made empty / single-node / "
-                "link-free graphs (single and link-free nodes also on both sides of 256 bases and, one single node in twelve, of 8192 / 16384 bases, pipeline graphs with a 280-340-base read: `Debug` of a view stops printing bases there), pipeline graphs with dangling extension bits and removed nodes, with and without a `rest` object (keys with quotes, backslashes, control characters); to_gfa (file) must equal write_gfa, write_gfa into a sink accepting 1, 7, 64 bytes per call must equal it too, to_gfa_with_tags (file), to_dot (file) and `Debug` of every node are compared with the model; the JSON is additionally parsed with serde_json and its node and "
+                "link-free graphs (single and link-free nodes also on both sides of 256 bases and, one single node in twelve, of 8192 / 16384 bases, pipeline graphs with a 280-340-base read: `Debug` of a view stops printing bases there), pipeline graphs with dangling extension bits and removed nodes, with and without a `rest` object (keys with quotes, backslashes, control characters); the output paths exist beforehand and hold more bytes than the export writes; to_gfa (file) must equal write_gfa, to_gfa_with_tags (file) must be write_gfa with one tag field per segment, write_gfa into a sink accepting 1, 7, 64 bytes per call must equal it too, to_gfa_with_tags (file), to_dot (file) and `Debug` of every node are compared with the model; the JSON is additionally parsed with serde_json and its node and "
                 "link counts compared with the graph; `persist kmer|dna|exts|lmer|graph …`: the text serde_json writes is compared with the model's (`Serde.*`; for graphs the `BaseGraph` text), and the round trip is observed with equality and query "
                 "comparison. Non-trivial = export of a graph with >= 2 nodes, or a persist request.",
         "trusted_base": ["serde / serde_json derive code (round trips are tested, not proved)", "Debug of DnaStringSlice (C15) renders the node sequence"],
